@@ -72,9 +72,11 @@ Fixpoint sq_model (k : fkind) (p : cprop Z) (file : option Z) (steps : list sste
 (* --- SQ: the reference, from the statement ------------------------------- *)
 (* base = what the last accepted update set (pending = staged, not yet
    committed), over = the last command-line value.  The process reads over if
-   any else base; a listener is told, by every override and every update, the
-   value the process now reads; whenever the file is written it holds base and
-   never an override. *)
+   any else base; a listener is told, by every override and every update (at
+   the moment it takes effect: the commit), the value the process now reads;
+   whenever the file is written it holds the update in flight if there is one
+   (an update is saved before it takes effect), else base, and never an
+   override. *)
 Definition file_means (k : fkind) (base : Z) (f : fileobs) : bool :=
   match k, f with
   | KSize, FText s => opt_eqb Z.eqb (ref_size s) (Some base)
@@ -94,11 +96,12 @@ Fixpoint sq_ref (k : fkind) (base : Z) (pending : option Z) (over : option Z) (f
         match op with
         | SOverride v => (base, pending, Some v, list_z_eqb told [v])
         | SUpdate v => (v, None, over, list_z_eqb told [eff over v])
-        | SStage v => (base, Some v, over, list_z_eqb told [eff over v])
-        | SCommit => (match pending with Some v => v | None => base end, None, over, list_z_eqb told [])
+        | SStage v => (base, Some v, over, list_z_eqb told [])
+        | SCommit => (match pending with Some v => v | None => base end, None, over,
+                      list_z_eqb told (match pending with Some v => [eff over v] | None => [] end))
         | SSave => (base, pending, over, list_z_eqb told [])
         end in
-      let file' := if saves op then Some base' else file in
+      let file' := if saves op then Some (match pending' with Some v => v | None => base' end) else file in
       (read =? eff over' base') && told_ok &&
       match file' with None => match f with FAbsent => true | _ => false end
                      | Some b => file_means k b f end &&
